@@ -174,6 +174,30 @@ def build_harness(name, flavour="plain", extra=""):
 # --------------------------------------------------------------------------------------
 # Coq / OCaml
 
+def run_translators():
+    """Regenerate coq/Gen/*.v from /repo's current tree: every translators/*.py with a generate()."""
+    import importlib
+    tdir = os.path.join(VERIF, "translators")
+    if tdir not in sys.path:
+        sys.path.insert(0, tdir)
+    done = {}
+    for f in sorted(glob.glob(os.path.join(tdir, "*.py"))):
+        name = os.path.basename(f)[:-3]
+        mod = importlib.import_module(name)
+        if hasattr(mod, "generate"):
+            try:
+                done[name] = mod.generate()
+            except BuildError:
+                raise
+            except Exception as e:
+                raise TranslatorError("translator %s no longer recognises the source: %s" % (name, e))
+    return done
+
+
+class TranslatorError(Exception):
+    pass
+
+
 def coq_project():
     """_CoqProject is generated: -Q . SqfVerif plus every .v under coq/ (nobody edits it by hand)."""
     files = sorted(os.path.relpath(p, COQ) for p in glob.glob(os.path.join(COQ, "**", "*.v"), recursive=True))
@@ -185,6 +209,7 @@ def coq_project():
 
 
 def coq_makefile():
+    run_translators()
     with Lock("coq"):
         coq_project()
         mk = os.path.join(COQ, "Makefile.coq")
